@@ -339,23 +339,23 @@ deriving Repr
 
 abbrev Rec := Bool → Nat → Bool → List VroEnt → Name → Option VerReq → Option VExpr → St → Res
 
+/-- `execute_envPrepend` / `execute_envSet` / `execute_addAlias` for the product `p` (dependency lines: no effect here) -/
+def Act.apply (fwd : Bool) (p : Prod) : Act → St → St
+  | .prepend var val app, s =>
+    { s with env := if fwd then s.env.addPath var (val.elem p) app else s.env.removePath var (val.elem p) }
+  | .set var val, s =>
+    { s with env := if fwd then { s.env with vars := aset s.env.vars var (val.elem p) }
+                    else { s.env with vars := aunset s.env.vars var } }
+  | .alias key val, s =>
+    if fwd then { s with aliases := aset s.aliases key val }
+    else { s with aliases := aunset s.aliases key, unaliased := key :: s.unaliased.filter (· ≠ key) }
+  | .dep _ _ _ _ _, s => s
+
 /-- the action loop of `Eups.setup` (`a.execute(self, recursionDepth + 1, fwd, noRecursion, …)`);
 `depth` is the `recursionDepth` of the product `d` whose table this is. -/
 def acts (rec : Rec) (cfg : Cfg) (fwd : Bool) (depth : Nat) (noRec : Bool) (vro : List VroEnt) (d : Decl) :
     List Act → St → Res
   | [], s => .ok s
-  | .prepend var val app :: rest, s =>
-    let x := val.elem d.prod
-    acts rec cfg fwd depth noRec vro d rest
-      { s with env := if fwd then s.env.addPath var x app else s.env.removePath var x }
-  | .set var val :: rest, s =>
-    acts rec cfg fwd depth noRec vro d rest
-      { s with env := if fwd then { s.env with vars := aset s.env.vars var (val.elem d.prod) }
-                      else { s.env with vars := aunset s.env.vars var } }
-  | .alias key val :: rest, s =>
-    acts rec cfg fwd depth noRec vro d rest
-      (if fwd then { s with aliases := aset s.aliases key val }
-       else { s with aliases := aunset s.aliases key, unaliased := key :: s.unaliased.filter (· ≠ key) })
   | .dep n opt just ver vexpr :: rest, s =>
     if noRec || cfg.maxDepth = some depth then acts rec cfg fwd depth noRec vro d rest s
     else
@@ -367,10 +367,41 @@ def acts (rec : Rec) (cfg : Cfg) (fwd : Bool) (depth : Nat) (noRec : Bool) (vro 
         -- popStack("env"): os.environ, aliases and the marks for `unset` go back to the saved values
         let s'' := { s' with env := s.env, aliases := s.aliases, unaliased := s.unaliased }
         if fwd && !opt then .raised s'' else acts rec cfg fwd depth noRec vro d rest s''
+  | a :: rest, s => acts rec cfg fwd depth noRec vro d rest (a.apply fwd d.prod s)
 
 /-- `{p.name: (p, None) for p in getSetupProducts()}` -/
 def alreadyOfEnv (db : Db) (e : Env) : Already :=
   e.recs.filterMap (fun (n, v) => (db.lookup (n, v)).map (fun d => (n, (d, none))))
+
+/-- the unsetup half of `Eups.setup` once the set-up product `d` is known: delete `SETUP_<P>`, `<P>_DIR`, replay the table -/
+def unwind (rec : Rec) (cfg : Cfg) (depth : Nat) (noRec : Bool) (vro : List VroEnt) (d : Decl) (s : St) : Res :=
+  acts rec cfg false depth noRec vro d (d.actions cfg.exact)
+    { s with env := { s.env with dirs := aunset s.env.dirs d.name, recs := aunset s.env.recs d.name } }
+
+/-- the setup half of `Eups.setup` once resolution has chosen `d`: register it (rebuilding `alreadySetupProducts`
+at depth 0), skip if already set up, unsetup the set-up version, write the records, run the table -/
+def install (rec : Rec) (cfg : Cfg) (depth : Nat) (noRec : Bool) (vro : List VroEnt) (d : Decl)
+    (reason : Option VroEnt) (s : St) : Res :=
+  let s := if depth = 0 then
+      { s with already := aset (alreadyOfEnv cfg.db s.env) d.name (d, reason) } else s
+  let sp := setupProd cfg.db s.env d.name
+  let skip : Bool := match sp with
+    | some sd => (sd.ver == d.ver || sd.dir == d.dir) && decide (depth > 0)
+    | none => false
+  if skip then .ok s
+  else
+    -- unsetupSetupProduct (at the same depth, so that max_depth keeps counting from the request);
+    -- its outcome is not looked at
+    let r1 : Res := match sp with
+      | some _ => rec false depth noRec vro d.name none none s
+      | none => .ok s
+    match r1 with
+    | .fuel => .fuel
+    | .ok s1 | .notFound s1 | .raised s1 =>
+      let env := { s1.env with dirs := aset s1.env.dirs d.name (.own d.prod []),
+                               recs := aset s1.env.recs d.name d.ver }
+      let s2 := { s1 with env := env, already := aset s1.already d.name (d, reason) }
+      acts rec cfg true depth noRec vro d (d.actions cfg.exact) s2
 
 /-- `Eups.setup(productName, versionName, fwd, recursionDepth, noRecursion, versionExpr)` -/
 def setup (cfg : Cfg) : Nat → Rec
@@ -380,33 +411,11 @@ def setup (cfg : Cfg) : Nat → Rec
       match resolve cfg.db cfg.keep s.already name version vexpr depth vro.length vro with
       | .none => .notFound s
       | .error => .raised s
-      | .found d reason =>
-        let s := if depth = 0 then
-            { s with already := aset (alreadyOfEnv cfg.db s.env) d.name (d, reason) } else s
-        let sp := setupProd cfg.db s.env d.name
-        let skip : Bool := match sp with
-          | some sd => (sd.ver == d.ver || sd.dir == d.dir) && decide (depth > 0)
-          | none => false
-        if skip then .ok s
-        else
-          -- unsetupSetupProduct (at the same depth, so that max_depth keeps counting from the request);
-          -- its outcome is not looked at
-          let r1 : Res := match sp with
-            | some _ => setup cfg fuel false depth noRec vro d.name none none s
-            | none => .ok s
-          match r1 with
-          | .fuel => .fuel
-          | .ok s1 | .notFound s1 | .raised s1 =>
-            let env := { s1.env with dirs := aset s1.env.dirs d.name (.own d.prod []),
-                                     recs := aset s1.env.recs d.name d.ver }
-            let s2 := { s1 with env := env, already := aset s1.already d.name (d, reason) }
-            acts (setup cfg fuel) cfg true depth noRec vro d (d.actions cfg.exact) s2
+      | .found d reason => install (setup cfg fuel) cfg depth noRec vro d reason s
     else
       match setupProd cfg.db s.env name with
       | none => .notFound s
-      | some d =>
-        let env := { s.env with dirs := aunset s.env.dirs d.name, recs := aunset s.env.recs d.name }
-        acts (setup cfg fuel) cfg false depth noRec vro d (d.actions cfg.exact) { s with env := env }
+      | some d => unwind (setup cfg fuel) cfg depth noRec vro d s
 
 /-! ## requests (what `setup` / `unsetup` on the command line do) -/
 
